@@ -53,8 +53,11 @@ SITES = {
                               '/': {'links': []}}}), ['http://a.test/']),
     'parent': (S({'/dir/index.html': {'links': ['/dir/sub/p', '/other/q', '/dir/../up',
                                                 'sub/../q2']},
-                  '/dir/sub/p': {'links': ['/dir/index.html', '/other/q']},
-                  '/dir/q2': {'links': []},
+                  '/dir/sub/p': {'links': ['/dir/index.html', '/other/q', '/dir/zz',
+                                           '/dir/sub/deep/r']},
+                  '/dir/q2': {'links': ['/dir/zz', '/dir/sub/deep/r']},
+                  '/dir/sub/deep/r': {'links': ['/dir/q3']},
+                  '/dir/q3': {'links': []},
                   '/other/q': {'links': ['/dir/zz']},
                   '/up': {'links': []},
                   '/dir/zz': {'links': []}}), ['http://a.test/dir/index.html']),
